@@ -234,7 +234,11 @@ class SymmetryTranslator:
                 for cc in nx.connected_components(g):
                     if len(cc) > 1 and not self._consistent_exchange(
                         [
-                            (potential_equalities[index], potential_strict_inequalities[index], potential_nstrict_inequalities[index])
+                            (
+                                potential_equalities[index],
+                                potential_strict_inequalities[index],
+                                potential_nstrict_inequalities[index],
+                            )
                             for index in cc
                         ]
                     ):
@@ -256,9 +260,9 @@ class SymmetryTranslator:
 
     @staticmethod
     def _consistent_exchange(groups: list[tuple[set[AST], dict[int, list[AST]], dict[int, list[AST]]]]) -> bool:
-        """several groups that share compared variables can only be ordered if exchanging the atoms of one group exchanges
-        the atoms of the others as well, i.e. if every compared term has exactly one partner over all groups
-        (sudoku(X,Y,M), sudoku(A,B,M), c1(Y), c1(B): Y-B everywhere; but p(A), p(B), q(B), q(C): B is paired with A and C)"""
+        """several groups that share compared variables can only be ordered if exchanging the atoms of one group
+        exchanges the atoms of the others as well, i.e. if every compared term has exactly one partner over all groups
+        (sudoku(X,Y,M), sudoku(A,B,M), c1(Y), c1(B): Y-B everywhere; p(A), p(B), q(B), q(C): B is paired with A and C)"""
         partner: dict[AST, AST] = {}
         for literals, strict, nstrict in groups:
             lits = sorted(literals)
